@@ -24,11 +24,11 @@ const (
 // EA is an effective address as a linear form over the eight general
 // registers of the address width, plus a displacement.
 type EA struct {
-	AddrSize int      // 16 or 32
-	Coef     [8]int   // coefficient of register number i (at AddrSize)
-	Disp     uint32   // displacement mod 2^AddrSize
-	SegSS    bool     // default segment is SS (base is (E)BP or (E)SP)
-	SegAny   bool     // (expected side only) the default segment is not compared
+	AddrSize int    // 16 or 32
+	Coef     [8]int // coefficient of register number i (at AddrSize)
+	Disp     uint32 // displacement mod 2^AddrSize
+	SegSS    bool   // default segment is SS (base is (E)BP or (E)SP)
+	SegAny   bool   // (expected side only) the default segment is not compared
 }
 
 type Operand struct {
@@ -43,17 +43,17 @@ type Operand struct {
 }
 
 type Inst struct {
-	Len     int
-	Op      string // canonical mnemonic; conditional jumps are "Jcc" with Cond set
-	Cond    int    // condition code 0..15 for Jcc
-	OpSize  int    // operand size attribute in force (16/32) or 8 for byte forms
-	Ops     [3]Operand
-	NOps    int
-	Seg     int  // segment override prefix, -1 if none
-	Has66   bool
-	Has67   bool
-	Rep     byte // F2/F3 or 0
-	Lock    bool
+	Len    int
+	Op     string // canonical mnemonic; conditional jumps are "Jcc" with Cond set
+	Cond   int    // condition code 0..15 for Jcc
+	OpSize int    // operand size attribute in force (16/32) or 8 for byte forms
+	Ops    [3]Operand
+	NOps   int
+	Seg    int // segment override prefix, -1 if none
+	Has66  bool
+	Has67  bool
+	Rep    byte // F2/F3 or 0
+	Lock   bool
 }
 
 var aluNames = [8]string{"ADD", "OR", "ADC", "SBB", "AND", "SUB", "XOR", "CMP"}
